@@ -176,3 +176,31 @@ func (s *Sel) Wait(hasDefault bool) int {
 	}
 	return chosen
 }
+
+// ---------------------------------------------------------------------------
+// Yield points (the `yield` transform): after a statement that made another goroutine
+// runnable the Yielder may hold the current goroutine back (it blocks inside the Yielder
+// until the harness lets it go on, typically after everything else has run until it
+// blocked). No Yielder: no effect.
+
+// Yielder is called by the goroutine that reached site; it returns when that goroutine may go on.
+type Yielder func(site string)
+
+var yielder Yielder
+
+// SetYielder installs (or with nil removes) the preemption procedure.
+func SetYielder(y Yielder) {
+	pmu.Lock()
+	yielder = y
+	pmu.Unlock()
+}
+
+// Yield is a preemption point.
+func Yield(site string) {
+	pmu.Lock()
+	y := yielder
+	pmu.Unlock()
+	if y != nil {
+		y(site)
+	}
+}
